@@ -94,6 +94,10 @@ def run_case(case):
         for d in a.disks:
             if not [1 for (dd, s) in fs.files(d) if len(fs.entries[d][s][1]) > 0]:
                 fs.write(d, b"seed-file-%d" % d, A.gen_bytes(rng, 1500, "rand"))
+        # recorded empty directories: they are not files, so one that simply stays where it is says nothing about the disk
+        for d in a.disks:
+            if rng.random() < 0.6 and scen._clear_path(fs, d, b"empty-skel-%d" % d):
+                fs.mkdir(d, b"empty-skel-%d" % d)
         r = a.cmd("sync", "-E", "-Z", variant=variant)
         if r.rc != 0:
             raise scen.CaseError("setup sync failed")
@@ -126,8 +130,22 @@ def run_case(case):
                     target = a.disk_names[d]
                     keep_content = [c for c in a.cpaths() if c.startswith(a.ddir(d) + "/")]
                     saved = {c: open(c, "rb").read() for c in keep_content if os.path.exists(c)}
-                    scen.wipe_disk(a, d)
+                    if rng.random() < 0.5:
+                        # every file and link is gone, the directory skeleton (incl. recorded empty directories) is still there
+                        for root, dirs, files in os.walk(os.fsencode(a.ddir(d)), topdown=False):
+                            for n in files:
+                                try:
+                                    os.unlink(os.path.join(root, n))
+                                except OSError:
+                                    pass
+                            for n in dirs:
+                                if os.path.islink(os.path.join(root, n)):
+                                    os.unlink(os.path.join(root, n))
+                        res["counters"]["disk_missing_with_directory_skeleton_left"] = res["counters"].get("disk_missing_with_directory_skeleton_left", 0) + 1
+                    else:
+                        scen.wipe_disk(a, d)
                     for c, data in saved.items():
+                        os.makedirs(os.path.dirname(c), exist_ok=True)
                         with open(c, "wb") as f:
                             f.write(data)
                     override = ["-E"]
@@ -138,7 +156,9 @@ def run_case(case):
                     target = a.disk_names[d]
                     base = os.fsencode(a.ddir(d))
                     now = int(time.time())
-                    # nothing recorded may stay equal: links and empty dirs go, every file is rewritten
+                    # nothing recorded may stay equal: links go, every file is rewritten; empty directories go or stay (they are
+                    # not files)
+                    keep_dirs = rng.random() < 0.5
                     seen_ino = set()
                     for root, dirs, files in os.walk(base, topdown=False):
                         for n in files + dirs:
@@ -149,7 +169,7 @@ def run_case(case):
                             if os.path.islink(p):
                                 os.unlink(p)
                             elif os.path.isdir(p):
-                                if not os.listdir(p):
+                                if not os.listdir(p) and not keep_dirs:
                                     os.rmdir(p)
                             elif st.st_ino in seen_ino:
                                 os.unlink(p)
@@ -339,7 +359,7 @@ def main(tier, seed, replay, jobs, scale):
         import json
         cases = [tuple(json.load(open(replay))["replay"]["case"])]
     else:
-        n = int((80 if tier == "quick" else 300) * scale)
+        n = int((80 if tier == "quick" else 600) * scale)
         cases = [(seed, i, tier) for i in range(n)]
     results = list(par.run_cases(run_case, cases, min(jobs, 8)))
     par.absorb(run, results)
